@@ -59,7 +59,7 @@ class Parser {
         if (end_ - p_ < 4) fail("bad \\u");
         unsigned v = (unsigned)strtoul(std::string(p_, 4).c_str(), nullptr, 16);
         p_ += 4;
-        if (v < 0x80) r += (char)v;
+        if (v < 0x100) r += (char)v;      // one byte, the inverse of esc() below (names are byte strings)
         else if (v < 0x800) { r += (char)(0xC0 | (v >> 6)); r += (char)(0x80 | (v & 0x3F)); }
         else { r += (char)(0xE0 | (v >> 12)); r += (char)(0x80 | ((v >> 6) & 0x3F)); r += (char)(0x80 | (v & 0x3F)); }
         break;
